@@ -18,7 +18,11 @@ def PieceOk : Piece → Prop
 
 def FieldValOk (v : FieldVal) : Prop := ESC ∉ v.plain ∧ ∀ p ∈ v.linked, PieceOk p
 
-def FieldsOk (f : Fields) : Prop := FieldValOk f.time ∧ FieldValOk f.author ∧ FieldValOk f.commit
+/-- The three fields are escape-free (their linked forms well-formed), and the link function, given escape-free text,
+returns well-formed pieces. -/
+def FieldsOk (f : Fields) : Prop :=
+  FieldValOk f.time ∧ FieldValOk f.author ∧ FieldValOk f.commit ∧
+  ∀ t, ESC ∉ t → ∀ p ∈ f.relink t, PieceOk p
 
 /-- The literal text of the format string (what stands between the placeholders) has no ESC. -/
 def ItemsLitOk (items : List BlameMeta.Item) : Prop := ∀ it ∈ items, ESC ∉ it.pre ∧ ESC ∉ it.suf
@@ -112,7 +116,7 @@ theorem fieldVal_ok (f : Fields) (hf : FieldsOk f) (name : String) (v : FieldVal
   · split at h
     · cases h; exact hf.2.1
     · split at h
-      · cases h; exact hf.2.2
+      · cases h; exact hf.2.2.1
       · simp at h
 
 /-- The pieces of a field are well-formed; when the kind cannot carry escapes they are the plain text. -/
@@ -145,6 +149,23 @@ theorem padded_neutral (env : Env) (k : Kind) (v : FieldVal) (hv : FieldValOk v)
   · subst hp
     exact pad_none_neutral _ _ _ (neutral_pieces ps hok)
   · exact neutral_text _ (pad_noesc _ _ _ _ (hplain hp))
+
+/-- Linking after padding: what is appended is neutral when the padded string is, and was escape-free if it is linked. -/
+theorem postPad_neutral (env : Env) (relink : Str → List Piece)
+    (hr : ∀ t, ESC ∉ t → ∀ p ∈ relink t, PieceOk p) (post : List (String × Kind)) (label : String) (plainField : Bool)
+    (padded shown : Str) (hn : Neutral padded) (hp : plainField = true → ESC ∉ padded)
+    (h : postPad env relink post label plainField padded = .ok shown) : Neutral shown := by
+  unfold postPad at h
+  split at h
+  · cases h; exact hn
+  · split at h
+    · cases h; exact hn
+    · split at h
+      · next hpl =>
+        cases h
+        exact neutral_pieces _ (hr padded (hp hpl))
+      · simp at h
+    · simp at h
 
 theorem formatMetaGo_neutral (env : Env) (cw : Char → Nat) (f : Fields) (hf : FieldsOk f) (items : List BlameMeta.Item)
     (hlit : ItemsLitOk items) (hprec : precisionOnPlain env items = true) (acc suffix out : Str)
@@ -198,8 +219,17 @@ theorem formatMetaGo_neutral (env : Env) (cw : Char → Nat) (f : Fields) (hf : 
                   simpa using hthis
               have hpad := padded_neutral env a.kind v hvok ps hps w (it.align.getD (alignOfString Generated.BlameMeta.defaultAlign))
                 it.prec hp
-              exact ih hlit' hprec' _ _
-                (neutral_append _ _ hacc (neutral_append _ _ (neutral_text _ hl.1) hpad)) hl.2 h
+              split at h
+              · simp at h
+              · next shown hshown =>
+                have hplain : (!mayCarryEscapes env a.kind) = true →
+                    ESC ∉ pad (piecesChars ps) w (it.align.getD (alignOfString Generated.BlameMeta.defaultAlign)) it.prec := by
+                  intro hc
+                  have hc' : mayCarryEscapes env a.kind = false := by simpa using hc
+                  exact pad_noesc _ _ _ _ ((fieldPieces_ok env a.kind v hvok ps hps).2 hc')
+                have hsh := postPad_neutral env f.relink hf.2.2.2 linkAfterPadArms lab _ _ shown hpad hplain hshown
+                exact ih hlit' hprec' _ _
+                  (neutral_append _ _ hacc (neutral_append _ _ (neutral_text _ hl.1) hsh)) hl.2 h
 
 /-- **The metadata string is neutral** — it leaves a link-free ground state as it found it — whenever a precision only
 cuts escape-free text. -/
